@@ -40,6 +40,8 @@ def gen_shape(g, i):
             shape["method"] = "HEAD"
         else:
             shape["status"] = g.choice(["204 No Content", "304 Not Modified"])
+        if kind == "empty" and shape["status"][:3] != "204" and g.random() < 0.5:
+            shape["declared"] = g.choice([1, 17, 300])      # HEAD / 304 carrying the entity's Content-Length, and no body
     return shape
 
 
@@ -57,7 +59,7 @@ class C31(Check):
                            "ioflo.aio.tcp Client/Server/Incomer (+Tls classes over the stub)"],
                   "stub": ["socket module", "TLS record layer", "WSGI application (plan driven)"]}
     assumptions = ["responses are read from Patron.responses after the run (a client may queue requests and collect later)"]
-    required_probes = ["n>=3", "stream-after-stream", "error-shape", "tls", "progressive", "partial-delivery", "completed", "empty-item-with-length-0", "list-app", "bodyless-without-length-then-another"]
+    required_probes = ["n>=3", "stream-after-stream", "error-shape", "tls", "progressive", "partial-delivery", "completed", "empty-item-with-length-0", "list-app", "bodyless-without-length-then-another", "bodyless-with-declared-length-then-another"]
     quick_runs = 6000
     thorough_runs = 300000
     shrink_fields = ["schedule", "shapes"]
@@ -114,6 +116,8 @@ class C31(Check):
             out.probe("empty-item-with-length-0")
         if any(s.get("aslist") for s in shapes):
             out.probe("list-app")
+        if any(s.get("declared") for s in shapes[:-1]):
+            out.probe("bodyless-with-declared-length-then-another")
         if any((s.get("method") == "HEAD" or s["status"][:3] in ("204", "304")) and s["kind"] == "nolen-empty" for s in shapes[:-1]):
             out.probe("bodyless-without-length-then-another")
         if not plan["upfront"]:
